@@ -31,9 +31,24 @@ Definition class_of (s : string) : option pclass :=
   if String.eqb s "FluidPropertyPolynominal" then Some CPoly else
   if String.eqb s "FluidPropertySutherland" then Some CSuth else None.
 
-(* FluidPropertyInterExtra.prop_getter_entries: interp1d attribute -> constructor keyword *)
+(* fields a class stores IN ADDITION to its attribute dict and splits off again in from_dict:
+   FluidPropertyInterExtra.prop_getter_entries (interp1d attributes), FluidPropertyPolynominal's coefficients *)
 Definition getter_fields : list string := ["x"; "y"; "_fill_value_orig"].
-Definition is_getter_field (k : string) : bool := existsb (String.eqb k) getter_fields.
+Definition poly_getter_fields : list string := ["coefficients"].
+Definition getter_fields_of (c : pclass) : list string :=
+  match c with CInterExtra => getter_fields | CPoly => poly_getter_fields | _ => [] end.
+Definition is_getter_field_of (c : pclass) (k : string) : bool := existsb (String.eqb k) (getter_fields_of c).
+Definition is_getter_field (k : string) : bool := is_getter_field_of CInterExtra k.
+
+(* the interpolator's fill rule: "extrapolate" is stored as that string, the interp1d default (a 0-d NaN
+   array, no extrapolation) is stored as null and the keyword is omitted on load *)
+Inductive fill := FExtrapolate | FDefault.
+Definition enc_fill (f : fill) : option string := match f with FExtrapolate => Some "extrapolate" | FDefault => None end.
+Definition dec_fill (j : option string) : option fill :=
+  match j with
+  | None => Some FDefault
+  | Some s => if String.eqb s "extrapolate" then Some FExtrapolate else None
+  end.
 
 Section Codec.
   Variables L E : Type.
@@ -70,13 +85,12 @@ Section Codec.
   (* to_dict: the attribute dict, then (InterExtra) the interpolator's fields *)
   Definition enc_prop (p : prop) : jprop :=
     {| jp_class := class_name (p_class p); jp_fields := enc_fields (p_attrs p) ++ enc_fields (p_getter p) |}.
-  (* from_dict: InterExtra splits the getter fields off and rebuilds the interpolator from them *)
+  (* from_dict: the class's extra fields are split off again (and the interpolator / polynomial rebuilt) *)
   Definition dec_prop (j : jprop) : option prop :=
     match class_of (jp_class j), dec_fields (jp_fields j) with
-    | Some CInterExtra, Some f =>
-        Some {| p_class := CInterExtra; p_attrs := filter (fun kv => negb (is_getter_field (fst kv))) f;
-                p_getter := filter (fun kv => is_getter_field (fst kv)) f |}
-    | Some c, Some f => Some {| p_class := c; p_attrs := f; p_getter := [] |}
+    | Some c, Some f =>
+        Some {| p_class := c; p_attrs := filter (fun kv => negb (is_getter_field_of c (fst kv))) f;
+                p_getter := filter (fun kv => is_getter_field_of c (fst kv)) f |}
     | _, _ => None
     end.
 
@@ -136,11 +150,8 @@ Section Codec.
 
   (* ---- well-formed documents ---- *)
   Definition wf_prop (p : prop) : bool :=
-    match p_class p with
-    | CInterExtra => forallb (fun kv => negb (is_getter_field (fst kv))) (p_attrs p)
-                     && forallb (fun kv => is_getter_field (fst kv)) (p_getter p)
-    | _ => match p_getter p with [] => true | _ => false end
-    end.
+    forallb (fun kv => negb (is_getter_field_of (p_class p) (fst kv))) (p_attrs p)
+    && forallb (fun kv => is_getter_field_of (p_class p) (fst kv)) (p_getter p).
   Definition wf_value (v : value) : bool :=
     match v with
     | VFluid _ ps => forallb (fun kv => wf_prop (snd kv)) ps
